@@ -77,3 +77,12 @@ def cons_obj(x, rest):
 
 def cat_obj(a, b):
     return list(a) + list(b)
+
+
+def utf8(text):
+    """The octets str.encode produces (library default encoding)."""
+    return text.encode("utf-8")
+
+
+def unutf8(octets):
+    return bytes(octets).decode("utf-8")
